@@ -24,7 +24,7 @@ ASSUMPTIONS = [
 ]
 REQUIRED = {
     "quick": {"extends/ok": 700, "extends/cycle_refused": 80, "extends/missing_parent_refused": 80,
-              "extends/depth>=3": 150, "extends/excluded_key_in_parent": 150, "groups/range_len_1": 20,
+              "extends/depth>=3": 110, "extends/excluded_key_in_parent": 150, "groups/range_len_1": 20,
               "groups/range_len_2": 20, "groups/range_len>=3": 100, "groups/count": 100, "groups/count_0": 5,
               "groups/invalid_refused": 30, "groups/count_inherited_from_listed_group": 20, "access/checked_agents": 500, "random/values": 100000,
               "random/malformed_refused": 200, "class/builtin_resolved": 200, "class/user_resolved": 30,
